@@ -39,7 +39,8 @@ pub fn run(ctx: &Ctx) -> ! {
          every history is replayed on a fresh node and the invariants are evaluated on the database after every event; \
          a history is non-trivial when at least one certificate was sealed; distinct = distinct canonical states",
     );
-    let run = |h: &[Ev]| replay(&scratch, h, 3);
+    let closing_rounds = ctx.tier.pick(2, 3);
+    let run = |h: &[Ev]| replay(&scratch, h, 3, closing_rounds);
     if let Some(path) = &ctx.replay {
         let v = mc_core::load_replay(path);
         let h: Vec<Ev> = serde_json::from_value(v["history"].clone()).expect("history in replay file");
@@ -157,6 +158,7 @@ pub fn run(ctx: &Ctx) -> ! {
     rep.transitions = Some(rep.transitions.unwrap_or(0) + n_inter);
     rep.traces_validated = Some(rep.traces_validated.unwrap_or(0) + n_inter);
     rep.extra("interleavings", json!({"schedule_len": sched.len(), "point_occurrences": points.len(), "runs": n_inter, "preemptions_per_run": 1}));
+    rep.extra("closing_rounds_after_every_history", json!(closing_rounds));
     rep.assume("the Cardano node, the immutable-file digester and the artifact uploader are the repository's own test doubles");
     rep.assume("interleavings are explored only at the declared hook points and only of whole operations (one preemption per run)");
     rep.assume("reference registration rule: keys registered during epoch e sign in epoch e+2; signer keys come from the repository's deterministic fixtures");
